@@ -24,6 +24,15 @@ def _line(node: Any) -> int:
 
 
 # ------------------------------------------------------------------ OrderedDict
+def _key(eng: Any, st: State, k: Any, node: Any) -> Any:
+    """dict key as an SMT string; an optional value is accepted when the path condition excludes None"""
+    if isinstance(k, Opt):
+        if eng.feasible(st, V.bool_z3(k.isnone)):
+            raise Unsupported("possibly-None dictionary key", node)
+        k = k.val
+    return to_z3(k)
+
+
 class ODModel:
     """A-OD: collections.OrderedDict[str, int] as (mem, val, n, rank, top).
 
@@ -68,13 +77,11 @@ class ODModel:
         return st.obj(r).get("n")
 
     def contains(self, eng: Any, st: State, r: Ref, x: Any, node: Any):
-        if not V.is_str(x):
-            raise Unsupported("OrderedDict membership with non-str key", node)
-        yield st, z3.Select(st.obj(r).get("mem"), to_z3(x))
+        yield st, z3.Select(st.obj(r).get("mem"), _key(eng, st, x, node))
 
     def getitem(self, eng: Any, st: State, r: Ref, k: Any, node: Any, ctx: Any):
         o = st.obj(r)
-        kz = to_z3(k)
+        kz = _key(eng, st, k, node)
         for st1, b in eng.branch(st, z3.Select(o.get("mem"), kz), f"L{_line(node)}od[k]"):
             if b:
                 yield st1, z3.Select(o.get("val"), kz)
@@ -83,7 +90,7 @@ class ODModel:
 
     def setitem(self, eng: Any, st: State, r: Ref, k: Any, v: Any, node: Any, ctx: Any):
         o = st.obj(r)
-        kz = to_z3(k)
+        kz = _key(eng, st, k, node)
         if not V.is_int(v):
             raise Unsupported("OrderedDict value must be int here", node)
         for st1, b in eng.branch(st, z3.Select(o.get("mem"), kz), f"L{_line(node)}od[k]="):
@@ -102,7 +109,7 @@ class ODModel:
         if name == "move_to_end":
             if len(args) != 1 or kwargs:
                 raise Unsupported("move_to_end(key, last=...)", node)
-            kz = to_z3(args[0])
+            kz = _key(eng, st, args[0], node)
             for st1, b in eng.branch(st, z3.Select(o.get("mem"), kz), f"L{_line(node)}move_to_end"):
                 if b:
                     top2 = o.get("top") + 1
@@ -112,7 +119,7 @@ class ODModel:
                     yield st1, Raised(ExcVal("KeyError"))
             return
         if name == "get":
-            kz = to_z3(args[0])
+            kz = _key(eng, st, args[0], node)
             default = args[1] if len(args) > 1 else kwargs.get("default")
             for st1, b in eng.branch(st, z3.Select(o.get("mem"), kz), f"L{_line(node)}od.get"):
                 yield st1, (z3.Select(o.get("val"), kz) if b else default)
